@@ -477,6 +477,12 @@ func Replay(in []byte) any {
 		w.length = 3 * CS
 	}
 	w.npieces, w.nchunks = 2, 3
+	if sc.Geom == 2 {
+		// pieces of three blocks: a piece length that is a multiple of the block size but not a power of two
+		w.psize = 3 * CS
+		w.length = 4*CS - 1000
+		w.nchunks = 4
+	}
 	t, err := mktor.New(mktor.Spec{Name: "sched", PieceLen: int64(w.psize), Length: w.length, Seed: w.seed}, "")
 	if err != nil {
 		out.Note = "torrent: " + err.Error()
